@@ -75,9 +75,12 @@ func importLocalFile(
 		if err = addModuleSentinel(ctx, rootPath); err != nil {
 			return nil, &localImportError{err: err, scanner: scanner}
 		}
-		if !strings.HasPrefix(importPath, "/") {
-			importPath = rootPath + "/" + strings.ReplaceAll(importPath, "../", "")
+		importPath = filepath.Join(rootPath, strings.ReplaceAll(importPath, "../", ""))
+		if !isInside(rootPath, importPath) {
+			return nil, &localImportError{err: errImportOutsideModule(importPath), scanner: scanner}
 		}
+	} else if !isInside(sourceDir, importPath) {
+		return nil, &localImportError{err: errImportOutsideModule(importPath), scanner: scanner}
 	}
 
 	if err := bundleLocalFile(ctx, importPath); err != nil {
@@ -90,6 +93,18 @@ func importLocalFile(
 	}
 
 	return v, nil
+}
+
+func errImportOutsideModule(importPath string) error {
+	return fmt.Errorf("import path can not be pointing outside of the script's module directory: %s", importPath)
+}
+
+// isInside reports whether p is dir or lies below it. It is applied to the
+// final path, after all trimming and cleaning, so that no spelling of an import
+// (whitespace-padded absolute paths, " ../x") can leave the directory.
+func isInside(dir, p string) bool {
+	rel, err := filepath.Rel(dir, p)
+	return err == nil && rel != ".." && !strings.HasPrefix(rel, ".."+string(filepath.Separator))
 }
 
 type externalImportErr struct {
